@@ -4,24 +4,32 @@ SPEC = dict(
     level_text='Mixed. PROVED deductively (unbounded lengths / list sizes): the real coverage() marks (or, accumulating, counts) position x '
                'iff some reported occurrence of a listed subsequence contains it, and percent_coverage() is the marked fraction (0 for the '
                'empty sequence) -- loop invariants over nested loops with slice assignment, modular over the contract of '
-               'find_subsequence_indices. BOUNDED (labelled): that find_subsequence_indices / find_indices / is_subsequence report exactly '
-               'the occurrences incl. overlapping ones, equal plain substring search when modifications are ignored, and the unordered '
-               'containment test -- they run a regex scan and compare sliced annotation objects, outside the verified subset.',
-    level_note='Assumed contracts (bounded-checked on the real functions): find_subsequence_indices (ascending, in range, exactly the '
-               'occurrences OCC), sequence_length. Annotation objects are opaque in the proofs; purity of the two callees is C08\'s frame '
+               'find_subsequence_indices. ALSO PROVED (record model, contracts/search.py): ProFormaAnnotation.is_subsequence is True exactly '
+               'when the query occurs somewhere in the target; find_indices returns, ascending and each once, EXACTLY the offsets p at '
+               'which the query\'s residues occur in the target and the target\'s stretch [p, p+len) equals the query, modifications included '
+               '(overlapping occurrences too: the candidate list is every literal occurrence, the filter is shown equivalent to the '
+               'occurrence predicate); find_subsequence_indices returns nothing for an empty query / target and otherwise exactly those offsets, '
+               'of the stripped peptides when modifications are ignored. BOUNDED (labelled): the same clause on the real functions over a '
+               'two-letter alphabet (the regex scan itself), plain-substring equivalence, the unordered containment test.',
+    level_note='In the coverage proofs find_subsequence_indices enters through its contract over opaque annotations (ascending, in range, '
+               'exactly the occurrences OCC) -- the clauses proved in contracts/search.py with OCC written out. Assumed there: LC-REGEX-LITERAL '
+               '(re.finditer with a residue string and overlapped=True yields every literal occurrence, ascending), A-WHOLE-SLICE (slicing out '
+               'the whole peptide gives an equal peptide), symmetry / transitivity of == (proved as lemmas under C20), the slice and == contracts '
+               '(proved under C11 / C20), sequence_length. Annotation objects are opaque in the proofs; purity of the two callees is C08\'s frame '
                'claim. SPEC-SUM fold definition. Trusted: pyvc, z3/cvc5.',
     design_ref='DESIGN.md section 6, C16',
-    contracts=['seqfuncs'],
+    contracts=['seqfuncs', 'search'],
     bounded=[dict(name='C16-bounded', script='bounded/C16.py')],
     replay_finder='bounded/C16.py',
     explanation='deductive obligations for coverage/percent_coverage (all discharged) + exhaustive bounded check of the occurrence search; '
                 'see proved_clauses / bounded_clauses',
-    proved_clauses=['coverage(): len == n; non-accumulating: cov[x] == 1 iff exists listed s and occurrence p with p <= x < p+len(s); '
+    proved_clauses=['is_subsequence / find_indices / find_subsequence_indices: exactly the offsets where residues and modifications match, ascending, each once, overlaps included (modulo LC-REGEX-LITERAL)',
+                    'coverage(): len == n; non-accumulating: cov[x] == 1 iff exists listed s and occurrence p with p <= x < p+len(s); '
                     'accumulating: cov[x] == number of (listed subsequence, reported offset) pairs covering x (recursive fold spec)',
                     'percent_coverage(): == sum(cov)/n, 0 for n == 0'],
-    bounded_clauses=['search returns exactly the occurrence offsets incl. overlaps; ignore_mods == plain substring search',
+    bounded_clauses=['the regex scan over residue letters (LC-REGEX-LITERAL); ignore_mods == plain substring search',
                      'percent coverage within [0,1] (follows from 0/1 entries; checked bounded)', 'unordered containment == multiset containment'],
     uncovered_clauses=['unordered containment for peptides with terminal modifications (statement does not fix the key of a terminal residue)'],
-    assumptions=['Python int = mathematical integer', 'callee purity (C08)'],
+    assumptions=['Python int = mathematical integer', 'callee purity (C08)', 'LC-REGEX-LITERAL', 'A-WHOLE-SLICE', 'SPEC-FILTER'],
     trusted_base=['z3 5.1', 'cvc5 1.0.3', 'pyvc AST->VC translation', 'CPython ast'],
 )
